@@ -10,6 +10,7 @@ import (
 	"fmt"
 	"os"
 	"path/filepath"
+	"runtime/debug"
 	"sort"
 	"sync"
 	"sync/atomic"
@@ -88,6 +89,7 @@ type mev struct {
 }
 
 type mvb struct {
+	lost      []uint64 // (C01) document events the server sent on this session's stream that the consumer was never shown
 	vb        uint16
 	endBound  uint64 // the end of the range requested when the session opened this vBucket (open end, or the high seqno sampled in finite mode)
 	resume    ckTuple
@@ -120,6 +122,7 @@ type hViolation struct {
 }
 
 type session struct {
+	inStartHook    bool // deliveries are being made from inside AfterStreamStart of a rebalance
 	sc             *hScenario
 	cfg            *config.Dcp
 	cl             *fakeClient
@@ -479,6 +482,15 @@ func (s *session) end(op hOp) {
 						s.fail("C12", "vb %d waits for the retry of its refused re-request (transient end): active-stream count %d, but %d of %d assigned vBuckets have not finally ended", m.vb, active, total-ended, total)
 						return
 					}
+					if op.Gap%2 == 1 && len(m.pending) > 0 {
+						// a batching consumer acknowledges, during the pause, events it was shown before the end: the retry
+						// re-requests from the position settled THEN
+						s.ack(hOp{Op: "ack", Vb: int(m.vb) - s.lo, N: 8})
+						if s.viol != nil {
+							return
+						}
+						s.label("acknowledged_inside_reopen_retry_pause")
+					}
 					if op.Snap%4 == 0 && total-ended >= 2 {
 						for vb2, x := range s.vbs {
 							if vb2 != m.vb && !x.ended {
@@ -786,19 +798,26 @@ func (s *session) rebalance(op hOp) {
 	// C03: events the server sends on the re-requested streams while the rebalance is still completing (every request
 	// answered, AfterStreamStart running) belong to the new session: delivered like any other
 	builtInHook := false
-	if (s.oracles["C03"] || s.oracles["C04"]) && !s.oracles["C12"] && op.Snap%3 != 2 && !(s.scrapeClosed != nil && op.AtL) {
+	if (s.oracles["C01"] || s.oracles["C03"] || s.oracles["C04"] || (s.oracles["C05"] && s.metaI == nil && s.inflight == nil)) && !s.oracles["C12"] && op.Snap%3 != 2 && !(s.scrapeClosed != nil && op.AtL) {
 		s.hand.hook("ASStart", func() {
 			// the old session is closed: what the offset tracker is told from here on belongs to the new one
 			s.trackSeen = len(s.cons.trackLog())
 			s.trackBase = s.trackSeen
 			s.buildModel(nOpens)
 			builtInHook = true
+			s.inStartHook = true
+			defer func() { s.inStartHook = false }()
 			for i, k := 0, 1+((op.Snap%3)+3)%3; i < k && s.viol == nil; i++ {
 				s.deliver(hOp{Op: "deliver", Vb: op.Vb + i, Kind: []string{"mut", "mut", "adv"}[i%3], Snap: i})
-				if s.oracles["C04"] && s.viol == nil {
+				if (s.oracles["C04"] || s.oracles["C05"]) && s.viol == nil {
 					// ... and settled right away: the position follows, as at any other time
 					s.ack(hOp{Op: "ack", Vb: op.Vb + i, N: 1})
 				}
+			}
+			if s.oracles["C05"] && s.viol == nil {
+				// ... and committed (Dcp.Commit from AfterStreamStart): a save like any other
+				s.save(hOp{Op: "save"})
+				s.label("commit_inside_after_stream_start_of_rebalance")
 			}
 			s.label("delivered_while_rebalance_completes")
 		})
@@ -808,6 +827,23 @@ func (s *session) rebalance(op hOp) {
 		s.hand.hook("BSStop", func() {
 			s.save(hOp{Op: "save"})
 			s.label("commit_inside_before_stream_stop_of_rebalance")
+		})
+	}
+	// C11: Dcp.Commit() (Stream.Save) from the application while the stream is closed for the rebalance - from the lifecycle
+	// callbacks of the closed window: harmless (there is nothing to save), and in no case the end of the client
+	if s.oracles["C11"] && ((op.Snap%2)+2)%2 == 1 && !(op.Fail && len(s.old) > 0) { // (not together with an old context acknowledged while closed: that one IS saved)
+		name := []string{"ARS", "BRE", "BSStart"}[((op.N%3)+3)%3]
+		s.hand.hook(name, func() {
+			defer func() {
+				if pv := recover(); pv != nil {
+					if os.Getenv("VERIF_DEBUG_STACK") != "" {
+						fmt.Fprintf(os.Stderr, "commit in closed window: panic %v\n%s\n", pv, debug.Stack())
+					}
+					s.fail("C11", "Commit() while the stream is closed for a rebalance (inside the %s callback) panicked: %v - in an application goroutine this ends the client", name, pv)
+				}
+			}()
+			s.st.Save()
+			s.label("commit_while_closed_for_rebalance")
 		})
 	}
 	double := s.oracles["C16"] && ((op.N%3)+3)%3 == 0 && s.cfg.Dcp.Group.Membership.Type != "dynamic"
@@ -1221,6 +1257,13 @@ func (s *session) deliver(op hOp) {
 		}
 	} else {
 		if len(evs) != before+1 {
+			if s.inStartHook && s.oracles["C01"] && !s.oracles["C03"] && len(evs) == before {
+				// (C01 histories) sent while the rebalance was completing and never shown: it is not settled - a durable
+				// checkpoint at or beyond it has a restart skip it
+				m.lost = append(m.lost, e.Seq)
+				s.label("sent_while_rebalance_completes_never_shown")
+				return
+			}
 			s.fail("C03", "vb %d: %s event seq %d was not delivered (consumer saw %d new events)", m.vb, e.Kind, e.Seq, len(evs)-before)
 			return
 		}
@@ -1405,6 +1448,11 @@ func (s *session) onDurableWrite(call *saveCall, vb uint16, t ckTuple) {
 	}
 	if !ok {
 		s.fail("C01", "vb %d: durable checkpoint seq %d written, but neither the resume position %d nor an event settled before the save began (settled: %v)", vb, t.Seq, m.resume.Seq, settledSeqs(m.settled[:n]))
+	}
+	for _, l := range m.lost {
+		if t.Seq >= l {
+			s.fail("C01", "vb %d: durable checkpoint seq %d written, but document event seq %d - sent by the server on this session's stream while the rebalance was completing - was never shown to the consumer, let alone acknowledged: a restart resumes beyond the first unsettled event", vb, t.Seq, l)
+		}
 	}
 	// C14: a vBucket advanced only by reserved-prefix events is not flagged for saving
 	if s.genAtSave[vb] == m.savedGen {
